@@ -52,7 +52,7 @@ func main() {
 		Workers:     12,
 		CaseTimeout: 180 * time.Second,
 		Floors: map[string]int64{"checkpoints": 1500, "acked_uploads_covered": 5000, "sync_rounds": 1500, "release_state_writes_without_clock": 40, "retries_observed": 150, "epoch_timer_pairs": 800, "shutdowns": 60,
-			"gated_rounds": 300, "wakeup_invariant_checks": 1500},
+			"gated_rounds": 300, "wakeup_invariant_checks": 1500, "dir_faults_injected": 90},
 		Assumptions: []string{"liveness is decided in bounded, state-based form: all goroutines parked + no pending virtual timer + work still pending = stall", "retry timers are recognised by their duration (7s+1ns); harness clock advances are whole seconds"},
 		Race:        true,
 		Body:        body,
@@ -85,6 +85,8 @@ type env struct {
 	// failure bookkeeping for (iv)
 	injectedSync, injectedState int64
 	timersSeen                  int
+	dirFaults                   int64
+	stuck                       bool
 }
 
 func schedule(ctx context.Context, w *run.Worker, c *run.Case) {
@@ -145,6 +147,14 @@ func schedule(ctx context.Context, w *run.Worker, c *run.Case) {
 				w.Count("gated_rounds", 1)
 				e.nontriv = true
 			}
+		case k < 70:
+			// a transient failure inside the real directory-backed state store
+			kind := []string{"create", "fwrite", "fsync", "close", "rename", "dirsync", "remove"}[r.Intn(7)]
+			s.M.Dir.AddFaultNext(kind, int64(r.Range(1, 2)), fmt.Errorf("injected %s failure", kind))
+			e.dirFaults++
+			e.sig.WriteString("D" + kind[:2])
+			e.nontriv = true
+			w.Count("dir_faults_injected", 1)
 		case k < 76:
 			n := r.Range(1, 3)
 			if r.Bool() {
@@ -250,10 +260,36 @@ func relevant(dump string) string {
 	return strings.Join(out, "\n\n")
 }
 
+// consecutiveFailures returns how many state writes / data syncs failed in a
+// row at the end of the event log.
+func (e *env) consecutiveFailures() (state, sync int) {
+	for _, ev := range e.s.Log.Events() {
+		switch ev.Kind {
+		case "state.write.end":
+			state = 0
+		case "state.write.failed", "state.write.injected-failure":
+			state++
+		case "datasync.end":
+			sync = 0
+		case "datasync.failed", "datasync.injected-failure":
+			sync++
+		}
+	}
+	return
+}
+
 func (e *env) drain() bool {
+	if e.stuck {
+		return false
+	}
 	for i := 0; i < 400; i++ {
 		if !run.Settle(30 * time.Second) {
 			e.w.Inconclusive("settle timed out in drain: " + run.ActiveGoroutines())
+			return false
+		}
+		if sf, yf := e.consecutiveFailures(); (sf > 25 || yf > 25) && e.s.State.PendingFailures() == 0 && e.s.DataSync.PendingFailures() == 0 && e.s.M.Dir.PendingFaults() == 0 {
+			e.c.Violation("periodicSyncer:retries-never-succeed", "%d state writes / %d data syncs failed in a row although no injected failure is pending any more: a transient failure is retried forever without succeeding; error log tail: %v", sf, yf, lastN(e.s.ErrLog.Messages(), 2))
+			e.stuck = true
 			return false
 		}
 		d, ok := e.s.M.Clock.NextFire()
@@ -384,7 +420,7 @@ func (e *env) checkpoint(where string) {
 			syncBegins++
 		case "datasync.injected-failure":
 			syncFails++
-		case "state.write.injected-failure":
+		case "state.write.injected-failure", "state.write.failed":
 			stateFails++
 		}
 	}
@@ -408,4 +444,11 @@ func (e *env) checkpoint(where string) {
 	if okSyncs > allowed {
 		e.c.Violation("periodicSyncer.ProcessBlockPut:sync-without-epoch-timer", "%s: %d data syncs completed but only %d epoch timers fired", where, okSyncs, len(epochFires))
 	}
+}
+
+func lastN(s []string, n int) []string {
+	if len(s) > n {
+		return s[len(s)-n:]
+	}
+	return s
 }
